@@ -6,6 +6,7 @@ import (
 	"math/rand"
 	"net"
 	"net/http"
+	"strings"
 	"time"
 )
 
@@ -318,6 +319,73 @@ func streamC08Gw(env *runEnv) {
 			env.emit("tunnel", "00001", "ws", "-", hx([]byte(b.addr)), itemsString(items), obs)
 			b.close()
 		}
+	}
+	// legacy: a packet over two chunks whose second part is a few bytes, and a chunk that fills the
+	// transport's 4096-byte read buffer exactly; further packets follow and must all be processed
+	for _, shape := range []string{"tail-1", "tail-3", "tail-7", "tail-8", "exactly-4096", "exactly-8192-in-two"} {
+		n++
+		b := newTagBackend(nil)
+		host, port := splitHostPort(b.addr)
+		id := fmt.Sprintf("{c08gw-%d-%d}", env.seed, n)
+		size := 100
+		if strings.HasPrefix(shape, "exactly") {
+			size = 4096 - 10
+		}
+		payload := randBytes(r, size)
+		big := packet(ptData, dataBody(payload))
+		pk := [][]byte{
+			packet(ptHandshake, handshakeBody(1, 0, 0, 0)),
+			packet(ptTunnelCreate, tunnelCreateBody(0, "", false)),
+			packet(ptTunnelAuth, tunnelAuthBody("pc")),
+			packet(ptChannelCreate, channelCreateBody(host, port)),
+			big,
+			packet(ptData, dataBody([]byte("<next>"))),
+			packet(ptCloseChannel, nil),
+		}
+		obs := "ERR:setup"
+		if l, err := legacyDial(srv.inst, id, nil); err == nil {
+			var resps [][]byte
+			get := func() {
+				if m, e := l.recv(2 * time.Second); e == nil {
+					resps = append(resps, m)
+				}
+			}
+			chunk := func(p []byte) { l.in.Write([]byte(fmt.Sprintf("%x\r\n%s\r\n", len(p), p))); time.Sleep(25 * time.Millisecond) }
+			for _, p := range pk[:4] {
+				chunk(p)
+				get()
+			}
+			switch shape {
+			case "exactly-4096":
+				chunk(big)
+			case "exactly-8192-in-two":
+				chunk(big)
+				chunk(big)
+				pk = append(pk[:5], append([][]byte{big}, pk[5:]...)...)
+			default:
+				k := int(shape[len(shape)-1] - '0')
+				chunk(big[:len(big)-k])
+				chunk(big[len(big)-k:])
+			}
+			chunk(pk[len(pk)-2])
+			chunk(pk[len(pk)-1])
+			get()
+			closed := false
+			if _, e := l.recv(1500 * time.Millisecond); e != nil {
+				if ne, ok := e.(net.Error); !(ok && ne.Timeout()) {
+					closed = true
+				}
+			}
+			obs = tunnelObservation(srv, id, tunnelResult{responses: resps, closed: closed}, b, nil)
+			l.close()
+		}
+		var items []item
+		for _, p := range pk {
+			items = append(items, item{data: p, ans: all})
+		}
+		env.count("c08gw.legacy." + shape)
+		env.emit("tunnel", "00001", "legacy", "-", hx([]byte(b.addr)), itemsString(items), obs)
+		b.close()
 	}
 	// legacy: where TCP puts the first boundary of the RDG_IN_DATA request
 	for _, coalesce := range []string{"head-alone", "head+chunk", "head+half-chunk"} {
